@@ -305,7 +305,16 @@ def run(ctx, rep):
     #     guard keeps a stale, too high boundary after a truncation lowered `last` between two rotations)
     wset_ = set(writes)
     sync_set = set(g.call_nodes(c04.SYNC_RX))
-    recvs = set(P.calls(r"mpsc::Receiver::<T>::recv$"))
+    def blocking_recv(n):
+        t = g.term(n)
+        if cmatch(t, r"mpsc::Receiver::<T>::(recv|recv_timeout)$"):
+            return True
+        if cmatch(t, r"iter::Iterator>?::next$"):
+            a = event_args(g, n)
+            return bool(a) and contains(strip_ids(a[0]), lambda x: call_is(x, r"mpsc::Receiver::<T>::(iter|into_iter)$|IntoIterator>?::into_iter$") and
+                                        contains(x, lambda y: is_field(y, "rx")))
+        return False
+    recvs = {n for n in P.calls(None) if blocking_recv(n)}
     rep.floor("R07.2", "blocking recv events in the worker", len(recvs), 1)
 
     def step_c(ms, pi, qi, learn):
